@@ -869,10 +869,13 @@ def optimize_kl(
             with open(sanity_fn, "a") as f:
                 f.write("\n" + msg)
         if last_fn is not None:
-            with open(last_fn, "wb") as f:
+            # Write to a temporary file first such that a crash while pickling
+            # never destroys the last consistent state
+            with open(last_fn + ".tmp", "wb") as f:
                 # TODO: Make all arrays numpy arrays as to not instantiate on
                 # the main device when loading
                 pickle.dump((samples, opt_vi_st._replace(config={})), f)
+            os.replace(last_fn + ".tmp", last_fn)
         if callback is not None:
             callback(samples, opt_vi_st)
 
